@@ -115,3 +115,12 @@ def main2():
         shutil.rmtree(d)
         print('wrote', name)
 main2()
+
+# ---- cold-start only: race-free (every access under the mutex) but other goroutines can observe the half-built table
+M2[:] = [
+ ('c15-cold-partial-cache-locked', 'C15', 'misc/helper.go',
+  '\twordLookup := make(map[string]int)\n\n\tfor i, word := range qrl.WordList {\n\t\twordLookup[word] = i\n\t}\n',
+  '\tlookupMu.Lock()\n\tbuild := cachedLookup == nil\n\tif build {\n\t\tcachedLookup = make(map[string]int)\n\t}\n\tlookupMu.Unlock()\n\tif build {\n\t\tfor i, word := range qrl.WordList {\n\t\t\tlookupMu.Lock()\n\t\t\tcachedLookup[word] = i\n\t\t\tlookupMu.Unlock()\n\t\t}\n\t}\n\twordLookup := make(map[string]int)\n\tlookupMu.Lock()\n\tfor _, w := range mnemonicWords {\n\t\tif v, ok := cachedLookup[w]; ok {\n\t\t\twordLookup[w] = v\n\t\t}\n\t}\n\tlookupMu.Unlock()\n',
+  '\nvar (\n\tlookupMu     sync.Mutex\n\tcachedLookup map[string]int\n)\n', '"strings"\n', '"strings"\n\t"sync"\n'),
+]
+main2()
